@@ -51,6 +51,12 @@ func valText(v any) string {
 	case int64:
 		return fmt.Sprint(x)
 	case float64:
+		if x == 0 {
+			if math.Signbit(x) {
+				return "-0.0"
+			}
+			return "0.0"
+		}
 		return "2.5"
 	case string:
 		return fmt.Sprintf("%q", x)
@@ -66,7 +72,7 @@ func valText(v any) string {
 
 type unencodable struct{} // a list that JSON cannot encode: [1, inf]
 
-var addVals = []any{nil, true, int64(5), 2.5, "s", "2021-05-27 06:54:14.760 UTC", []any{int64(1), "a"}, map[string]any{"a": int64(1)}, unencodable{}, "NaN", "-Infinity", "1e999", "12abc"}
+var addVals = []any{nil, true, int64(5), 2.5, 0.0, math.Copysign(0, -1), "s", "2021-05-27 06:54:14.760 UTC", []any{int64(1), "a"}, map[string]any{"a": int64(1)}, unencodable{}, "NaN", "-Infinity", "1e999", "12abc"}
 
 func allOps() []op {
 	var out []op
